@@ -36,13 +36,15 @@ def gen_stateful(rng, size=None):
     prog["window"] = (s, min(e, s + 20))
     ports = [n["name"] for n in prog["nodes"] if n["kind"] not in ("feedback", "delayed")]
     # nodes that write and read GlobalState (state isolation between runs)
+    # (the key text differs between programs: concurrent executors then look up different keys)
+    base = rng.choice((70, 3170, 3270, 3370, 3470))
     for k in range(rng.choice((0, 1, 2))):
-        prog["sinks"].append(dict(kind="gsink", id=70 + k, port=rng.choice(ports)))
+        prog["sinks"].append(dict(kind="gsink", id=base + k, port=rng.choice(ports)))
         nm = "gr%d" % k
-        prog["nodes"].append(dict(name=nm, kind="gsread", args=[rng.choice(ports)], id=70 + k))
+        prog["nodes"].append(dict(name=nm, kind="gsread", args=[rng.choice(ports)], id=base + k))
         prog["sinks"].append(dict(kind="recu", id=950 + k, port=nm))
     if rng.random() < 0.5:
-        prog["gs"] = {"k70": rng.randint(100, 200)}
+        prog["gs"] = {"k%d" % base: rng.randint(100, 200)}
     # error capture with seeded diagnostic options (process-wide interning of capturing node types)
     if rng.random() < 0.4:
         cands = [n for n in prog["nodes"] if n["kind"] in ("c1", "c2", "c3", "accum", "sample", "samplemid") and n.get("id")]
@@ -248,7 +250,8 @@ class C07:
             variant = self.san
             if getattr(self, "instr", False) or case.get("instr"):
                 # instrumented build: extra pre-emption points inside engine code, on average every <n> function calls
-                ctext += "instr %d\n" % random.Random(case["simseed"]).choice((20, 100, 400, 2000))
+                r = random.Random(case["simseed"])
+                ctext += "instr %d %d\n" % (r.choice((20, 100, 400, 2000)), r.choice((0, 30, 100, 300)))
                 variant = "instr"
             for i, p in enumerate(progs):
                 # (a GlobalContext is a per-thread selection: the concurrent executors run without one)
